@@ -175,6 +175,16 @@ def gen_points(rng, case, nv, npar, delay_pars):
                         hist=[[str(Fr(rng.randint(-8, 8), 4)), str(Fr(rng.randint(-4, 4), 2)), str(rng.randint(-2, 2))] for _ in range(nv)]))
     return pts
 
+def rhs_printable(r):
+    """Python mirror of DDE.rhs_ok && DDE.rhs_share_ok, used only to keep the valid stream inside the guard (the verdict uses the Coq guard)"""
+    keys = [[(f[1], tuple(f[2])) for f in fs if f[0] == "past"] for _, fs in r]
+    if len(r) > 1 and any(ks and Fr(c) < 0 for (c, _), ks in zip(r, keys)):
+        return False
+    for i, kb in enumerate(keys):
+        if len(set(kb)) >= 2 and any(j != i and set(kb) & set(kj) for j, kj in enumerate(keys)):
+            return False
+    return True
+
 def gen_func(rng, neg_class=False, dt_class=False):
     nv = rng.choice([2, 3, 3, 4])
     vars_ = rng.sample(VARPOOL, nv)
@@ -193,6 +203,7 @@ def gen_func(rng, neg_class=False, dt_class=False):
         return ["past", x, rng.choice(dpool[x]), rng.randint(0, 3)]
     eqs = []
     for i in range(nv):
+      while True:
         nterms = rng.randint(1, 4)
         r = []
         for _ in range(nterms):
@@ -211,7 +222,9 @@ def gen_func(rng, neg_class=False, dt_class=False):
             if npast and nterms > 1 and c < 0:
                 c = -c                      # inside the guard past_terms_printable; negative feedback comes from parameters
             r.append([str(c), fs])
-        eqs.append(r)
+        if rhs_printable(r):
+            break
+      eqs.append(r)
     if use_t and not any(f[0] in ("real", "sign") for r in eqs for _, fs in r for f in fs):
         eqs[0].append(["1/2", [["sign", "5/16"], ["v", 0]]])
     if not any(f[0] == "past" for r in eqs for _, fs in r for f in fs):
@@ -505,7 +518,7 @@ def fails(ctx, case, tag):
     return bool(badS), r
 
 def shrink(ctx, case):
-    best, budget = case, 24
+    best, budget = case, 8
     def attempt(cand):
         nonlocal best, budget
         if budget <= 0:
